@@ -149,7 +149,7 @@ def run(ctx):
                 cont = False
                 for lead, rest, full in line_prefixes(j.res["out"], nl):
                     is_pp = rest.startswith(b"#") or cont
-                    cont = full.rstrip(b" \t").endswith(b"\\") if full is not None else False
+                    cont = full.endswith(b"\\") if full is not None else False      # a blank after the backslash: no continuation
                     eff = iwt if (not is_pp or ppiwt == -1) else ppiwt
                     if not rest:
                         continue
